@@ -363,6 +363,13 @@ impl AppConfig {
             errs.push(ValidationError::ReplicationCatchupTimeoutZero);
         }
 
+        if self.replication.factor as usize > sierradb::MAX_REPLICATION_FACTOR {
+            errs.push(ValidationError::ReplicationFactorTooLarge {
+                factor: self.replication.factor,
+                max: sierradb::MAX_REPLICATION_FACTOR,
+            });
+        }
+
         // Replication factor vs node count
         let node_count = self.node_count()?;
         if self.replication.factor as usize > node_count {
@@ -677,6 +684,8 @@ pub enum ValidationError {
     // Replication errors
     #[error("replication factor cannot be zero")]
     ReplicationFactorZero,
+    #[error("replication factor {factor} exceeds the maximum of {max}")]
+    ReplicationFactorTooLarge { factor: u8, max: usize },
     #[error("replication factor {factor} exceeds node count {node_count}")]
     ReplicationFactorExceedsNodeCount { factor: u8, node_count: usize },
     #[error("replication buffer size cannot be zero")]
